@@ -222,8 +222,19 @@ impl Property for C10 {
                     }
                 }
                 "combined" => {
-                    let members = rulesets.join(" ");
-                    let mut l = vec![format!("(unstable-combined-ruleset call__ {members})"), format!("(run call__ {a})")];
+                    // one level, or nested: outer = combined(inner = combined(first members), rest)
+                    let nested = b % 2 == 0 && rulesets.len() >= 2;
+                    let mut l = if nested {
+                        let k = 1 + (a as usize) % (rulesets.len() - 1);
+                        vec![
+                            format!("(unstable-combined-ruleset cin__ {})", rulesets[..k].join(" ")),
+                            format!("(unstable-combined-ruleset call__ cin__ {})", rulesets[k..].join(" ")),
+                            format!("(run call__ {a})"),
+                        ]
+                    } else {
+                        let members = rulesets.join(" ");
+                        vec![format!("(unstable-combined-ruleset call__ {members})"), format!("(run call__ {a})")]
+                    };
                     let mut r = vec![format!("(run rall__ {a})")];
                     if let (Some(own), Some(all)) = (case.cfg_str("extra_own"), case.cfg_str("extra_all")) {
                         // a rule added to a sub-ruleset after the combination
